@@ -20,6 +20,7 @@ def run_property(pid: str, tier: str, replay: str | None = None) -> int:
     program = None
     try:
         program = Program()
+        program._tier = tier  # read by the token-domain engines (exploration bounds)
         mod = importlib.import_module(f"mverif.props.{pid.lower()}")
         mod.run(report, program, tier)
         if tier == "thorough" and not replay and not os.environ.get("MVERIF_REPO"):
